@@ -3,6 +3,7 @@ import GqlProofs.Lexer.BlockSpec
 import GqlProofs.Lexer.Pos
 import GqlProofs.Lexer.NumFollow
 import GqlProofs.Lexer.SpecStep
+import GqlProofs.Lexer.SpecLex
 /-
   C03 — tokenisation conforms to the lexical grammar (theorem-backed parts).
 
@@ -19,11 +20,18 @@ import GqlProofs.Lexer.SpecStep
                                    (blank, comma, line terminators; on ASCII sources) and it stops
                                    exactly in front of a non-ignored character.
 
+   * `C03_step_ascii`           — one `ReadToken` step equals one lexical item of the specification on
+                                   ASCII text (kinds, values, extents; fails exactly where the grammar
+                                   admits no token), `C03_block_ascii` for block strings;
+   * `C03_lex_ascii`            — whole ASCII sources: `lexAll inp` and `Spec.lex inp` produce the same
+                                   tokens up to the end or the first error (hypothesis `BlocksOK`: no
+                                   block string is closed by a run of more than three quotes).
+
   NOT proved (covered by the exhaustive three-way enumeration of ./check C03 over lex19 / block6 /
-  lexraw16 and the random sweeps): the full equivalence `lexAll inp ≈ Spec.lex (decode inp)` for
-  strings with escapes, comments, and non-ASCII sources:
+  lexraw16 and the random sweeps): the equivalence for sources with non-ASCII characters:
       theorem C03_lex_sound_complete (cps) : lexAll (utf8Encode cps) ≈ Spec.lex cps
-  Known finding (not a theorem): a block string is closed by the LAST three quotes of a longer run.
+  Known finding (`C03_block_long_run_counterexample`, characterised exactly by `C03_block_ascii`): a
+  block string is closed by the LAST three quotes of a longer run.
 -/
 open Gql Gql.Lexer
 
@@ -345,3 +353,56 @@ theorem C03_block_long_run_counterexample :
 
 -- non-vacuity of the step theorem's token clause
 example : Spec.item [123, 32] = .token .braceL [] 1 := by rfl
+
+/-! ### whole inputs -/
+
+/-- The token sequence of the model equals the token sequence of the lexical grammar, and the model
+    fails exactly where the grammar admits no token — for ASCII sources in which every block string
+    met at an item boundary satisfies `NoLongQuoteRun` (`BlocksOK`, a decidable walk over the items
+    of the specification):
+     * `Spec.lex inp = .ok toks`    ⇒ `lexAll inp = .done (ts ++ [eof])`, `eof` the EOF token, and `ts`
+       agrees with `toks` token by token in kind, value (UTF-8 of the specification's code points),
+       start and stop (`obsT t = (t.kind, t.value, t.start, t.stop)`, `obsS s = (s.kind, utf8Encode
+       s.value, s.start, s.stop)`);
+     * `Spec.lex inp = .error toks` ⇒ `lexAll inp = .fail ts e` with the same agreement of the tokens
+       lexed before the error.
+    Since `Spec.lex` is total and the two outcomes are disjoint on both sides this is an equivalence.
+    Line and column: `C04_tokens_are_spec_tokens_ascii`. -/
+theorem C03_lex_ascii (inp : Bytes) (hA : Ascii inp) (hb : BlocksOK (inp.length + 1) inp = true) :
+    match Spec.lex inp with
+    | .ok toks => ∃ ts eof, lexAll inp = .done (ts ++ [eof]) ∧ eof.kind = .eof ∧ eof.value = [] ∧
+        ts.map obsT = toks.map obsS
+    | .error toks => ∃ ts e, lexAll inp = .fail ts e ∧ ts.map obsT = toks.map obsS :=
+  lexAll_lex inp hA hb
+
+/-- Unconditional form for ASCII sources without three consecutive quotes (no block strings). -/
+theorem C03_lex_ascii_no_block (inp : Bytes) (hA : Ascii inp) (hq : NoTripleQuote inp = true) :
+    match Spec.lex inp with
+    | .ok toks => ∃ ts eof, lexAll inp = .done (ts ++ [eof]) ∧ eof.kind = .eof ∧ eof.value = [] ∧
+        ts.map obsT = toks.map obsS
+    | .error toks => ∃ ts e, lexAll inp = .fail ts e ∧ ts.map obsT = toks.map obsS :=
+  lexAll_lex inp hA (BlocksOK_of_noTriple _ inp hq)
+
+/-- The model never runs out of fuel and succeeds iff the grammar tokenises the whole source
+    (same hypotheses). -/
+theorem C03_lex_ascii_outcome (inp : Bytes) (hA : Ascii inp) (hb : BlocksOK (inp.length + 1) inp = true) :
+    ((∃ toks, Spec.lex inp = .ok toks) ↔ ∃ ts, lexAll inp = .done ts) ∧
+    ((∃ toks, Spec.lex inp = .error toks) ↔ ∃ ts e, lexAll inp = .fail ts e) := by
+  have h := C03_lex_ascii inp hA hb
+  cases hs : Spec.lex inp with
+  | ok toks =>
+    rw [hs] at h
+    obtain ⟨ts, eof, e1, _⟩ := h
+    refine ⟨⟨fun _ => ⟨_, e1⟩, fun _ => ⟨toks, rfl⟩⟩, ⟨?_, ?_⟩⟩
+    · intro ⟨_, h⟩; cases h
+    · intro ⟨_, _, h⟩; rw [e1] at h; cases h
+  | error toks =>
+    rw [hs] at h
+    obtain ⟨ts, e, e1, _⟩ := h
+    refine ⟨⟨?_, ?_⟩, ⟨fun _ => ⟨_, _, e1⟩, fun _ => ⟨toks, rfl⟩⟩⟩
+    · intro ⟨_, h⟩; cases h
+    · intro ⟨_, h⟩; rw [e1] at h; cases h
+
+-- the hypotheses are satisfiable and the conclusion is not vacuous
+example : BlocksOK 40 (str "{ a(x: \"s\\n\", y: 1.5e3) \"\"\"b\"\"\" }") = true := by decide
+example : (match Spec.lex (str "{ a }") with | .ok ts => ts.length | _ => 0) = 3 := by decide
